@@ -217,13 +217,21 @@ Evict(c) ==
     /\ act' = [op |-> "Evict", c |-> c]
     /\ UNCHANGED <<dirobjs, pc, args, todoDel, todoNew, needRm, pend, failed, res, touched, dev, n>>
 
+\* between two checkouts (of one process) a cache object is damaged: replaced by a file of other bytes, not protected.
+\* (Explored for independent copies only: links into the cache would carry the damage into the workspace by themselves.)
+Corrupt(c) ==
+    /\ Idle /\ n >= 1 /\ n < MaxCheckouts /\ cache[c] = "ok" /\ LinkType = "copy"
+    /\ cache' = [cache EXCEPT ![c] = "bad"]
+    /\ act' = [op |-> "Corrupt", c |-> c]
+    /\ UNCHANGED <<ws, dirobjs, pc, args, todoDel, todoNew, needRm, pend, failed, res, touched, dev, n>>
+
 Targets == {[kind |-> "none"]} \cup {[kind |-> "file", c |-> c] : c \in Contents}
               \cup {[kind |-> "tree", listing |-> l] : l \in UNION {[S -> Contents] : S \in SUBSET Keys}}
 Next ==
     \/ \E t \in Targets, f \in BOOLEAN, r \in BOOLEAN, p \in Prompts, st \in BOOLEAN : Begin(t, f, r, p, st)
     \/ \E k \in AllKeys : RemoveDel(k) \/ PromptDel(k) \/ RemoveNew(k) \/ PromptNew(k) \/ Create(k) \/ CreateDangling(k)
     \/ End \/ Crash \/ EndDoomed
-    \/ \E c \in Contents : Evict(c)
+    \/ \E c \in Contents : Evict(c) \/ Corrupt(c)
 
 (******************************* properties *********************************)
 \* ---- C05: without force (and without an affirmative prompt) nothing that is not recoverable from
